@@ -33,6 +33,7 @@ type vService struct {
 	probe  bool // declares a node-shaped root field with another name
 	marked bool // its Node type T also implements the interface Marked, which only this service declares
 	probe2 bool // declares a root field that returns Node but takes more than the id
+	noroot bool // a pure extension service: its Query holds nothing but node, all it contributes are fields of the Node type T
 	idx    int
 }
 
@@ -61,7 +62,10 @@ func vPickFields(tag string) []vField {
 		if verifChoice(tag+".f1type", 2) == 1 {
 			f1.typ = "String"
 		}
-		if verifChoice(tag+".f1arg", 2) == 1 {
+		if vPlain {
+			// list-valued defaults (their text lives in the children of the value, not in its Raw)
+			f1.arg = []string{"", "(a: [Int] = [1, 2])", "(a: [Int] = [1])"}[verifChoice(tag+".f1arg", 3)]
+		} else if verifChoice(tag+".f1arg", 2) == 1 {
 			f1.arg = "(a: Int = 3)"
 		}
 	}
@@ -125,7 +129,9 @@ func vPickType(tag string, kinds int) vType {
 func (s vService) sdl() string {
 	var b strings.Builder
 	b.WriteString("interface Node { id: ID! }\n")
-	b.WriteString("type U1 { u: Int }\ntype U__2 { v__x: Int }\n")
+	if !s.noroot {
+		b.WriteString("type U1 { u: Int }\ntype U__2 { v__x: Int }\n")
+	}
 	t := s.t
 	fields := func(isInput bool) string {
 		var fs []string
@@ -164,6 +170,10 @@ func (s vService) sdl() string {
 		b.WriteString("union T = " + strings.Join(t.values, " | ") + "\n")
 	case "scalar":
 		b.WriteString("scalar T\n")
+	}
+	if s.noroot {
+		b.WriteString("type Query { node(id: ID!): Node }\n")
+		return b.String()
 	}
 	b.WriteString("type Query { q" + verifItoa(s.idx) + ": Int")
 	if s.dup {
@@ -368,6 +378,9 @@ func vPickServices() []vService {
 		if i <= 1 {
 			svcs[i].probe2 = verifChoice(tag+".probe2", 2) == 1
 		}
+		if i == 1 && svcs[i].t.kind == "object" && svcs[i].t.node && len(svcs[i].t.fields) > 0 && svcs[i].node && !svcs[i].dup && !svcs[i].probe && !svcs[i].probe2 {
+			svcs[i].noroot = verifChoice(tag+".noroot", 2) == 1
+		}
 		if i == 0 && svcs[i].t.kind == "object" && svcs[i].t.node {
 			svcs[i].marked = verifChoice(tag+".marked", 2) == 1
 		}
@@ -435,7 +448,9 @@ func VerifMerge() {
 		// ---- C03 ----
 		for _, s := range svcs {
 			t := s.t
-			verifAssert(sc.Types["Query"].Fields.ForName("q"+verifItoa(s.idx)) != nil, "every root field of every service is in the gateway schema")
+			if !s.noroot {
+				verifAssert(sc.Types["Query"].Fields.ForName("q"+verifItoa(s.idx)) != nil, "every root field of every service is in the gateway schema")
+			}
 			if s.node {
 				verifAssert(sc.Types["Query"].Fields.ForName("node") != nil, "the node entry point of a service is in the gateway schema")
 			}
@@ -473,7 +488,12 @@ func VerifMerge() {
 						verifAssert((len(fd.Arguments) == 1) == (f.arg != ""), "with the same arguments")
 						if len(fd.Arguments) == 1 {
 							a := fd.Arguments[0]
-							verifAssert(a.Name == "a" && a.Type.String() == "Int" && a.DefaultValue != nil && a.DefaultValue.Raw == "3", "argument name, type and default are preserved")
+							want := map[string]string{"(a: Int = 3)": "Int = 3", "(a: [Int] = [1, 2])": "[Int] = [1,2]", "(a: [Int] = [1])": "[Int] = [1]"}[f.arg]
+							got := ""
+							if a.DefaultValue != nil {
+								got = a.Type.String() + " = " + strings.ReplaceAll(a.DefaultValue.String(), " ", "")
+							}
+							verifAssert(a.Name == "a" && got == want, "argument name, type and default are preserved")
 						}
 					}
 				}
@@ -548,8 +568,12 @@ func VerifMerge() {
 	vKnown04(svcs)
 	tm := base.TypeURLMap
 	for _, s := range svcs {
-		u, ok := tm.Get("Query", "q"+verifItoa(s.idx))
-		verifAssert(ok && u == "svc"+verifItoa(s.idx), "every root field is routed to the service that declared it")
+		if !s.noroot {
+			u, ok := tm.Get("Query", "q"+verifItoa(s.idx))
+			verifAssert(ok && u == "svc"+verifItoa(s.idx), "every root field is routed to the service that declared it")
+		} else {
+			verifReach("pure extension service")
+		}
 		if s.probe {
 			ul, okl := tm.Get("Query", "lookup")
 			verifAssert(okl && ul == "svc"+verifItoa(s.idx), "every root field is routed to the service that declared it (lookup)")
